@@ -191,8 +191,23 @@ func sockets(w *hx.Writer) {
 				})}
 				started := make(chan struct{}, 1)
 				srv.NotifyStartedFunc = func() { started <- struct{}{} }
-				go srv.ActivateAndServe()
-				<-started
+				failed := make(chan error, 1)
+				go func() {
+					if err := srv.ActivateAndServe(); err != nil {
+						failed <- err
+					}
+				}()
+				select {
+				case <-started:
+				case err := <-failed:
+					sum.Mis("udpsession/server-start:"+c.name, fmt.Sprintf("ActivateAndServe on a %s socket fails: %v", c.network, err), c.name)
+					conn.Close()
+					continue
+				case <-time.After(wait):
+					sum.Mis("udpsession/server-start:"+c.name, "ActivateAndServe neither started nor failed", c.name)
+					conn.Close()
+					continue
+				}
 				for _, to := range c.targets {
 					exchange(w, name, conn, c.cnet, to, true)
 				}
